@@ -291,8 +291,10 @@ class PaxosNode(Entity):
         self._phase1_responses[ballot_number].append(response)
         self._promises_received += 1
 
-        # Check if we have a quorum
-        if len(self._phase1_responses[ballot_number]) >= self.quorum_size:
+        # Start Phase 2 exactly once per ballot, when the quorum is first reached.
+        # Promises arriving later must not restart it: that could change the value
+        # proposed under this ballot and reset the accept tally.
+        if len(self._phase1_responses[ballot_number]) == self.quorum_size:
             return self._start_phase2(ballot_number)
 
         return []
